@@ -195,6 +195,17 @@ func (x *cloneX) assign(s *ast.AssignStmt, g gctx) {
 		x.emit(ev, g, s.Pos())
 		return
 	}
+	// out.F = h(n.F) with h a list-clone helper: `var out []T; for _, v := range list { out =
+	// append(out, Clone(v).(T)) }; return out` — the same as the inline loop onto the fresh node
+	if call, ok := rhs.(*ast.CallExpr); ok && len(call.Args) == 1 {
+		if src, oks := c.Path(call.Args[0], x.n); oks {
+			if ev, okh := x.listCloneHelper(call); okh {
+				ev.Field, ev.Src = field, src
+				x.emit(ev, g, s.Pos())
+				return
+			}
+		}
+	}
 	// out.Decs.X = append(out.Decs.X, n.Decs.X...)
 	if ap, ok := rhs.(*ast.CallExpr); ok {
 		if id, ok := ap.Fun.(*ast.Ident); ok && id.Name == "append" {
@@ -371,4 +382,80 @@ func ExtractListing(c *Ctx) (*Sibling, error) {
 		cs.Events = evs
 	}
 	return s, nil
+}
+
+// listCloneHelper recognises a call of a same-package function
+//   func h(list []T) []T { var out []T; for _, v := range list { out = append(out, Clone(v).(T)) }; return out }
+// and returns the KList event of the equivalent inline loop.
+func (x *cloneX) listCloneHelper(call *ast.CallExpr) (Event, bool) {
+	c := x.c
+	fn := c.Callee(call)
+	if fn == nil || fn.Pkg() != c.Pkg.Types {
+		return Event{}, false
+	}
+	for _, h := range load.AllFuncDecls(c.Pkg) {
+		if c.Info.Defs[h.Name] != types.Object(fn) || h.Body == nil || h.Recv != nil || len(h.Body.List) != 3 {
+			continue
+		}
+		if h.Type.Params == nil || len(h.Type.Params.List) != 1 || len(h.Type.Params.List[0].Names) != 1 {
+			return Event{}, false
+		}
+		param := c.Info.Defs[h.Type.Params.List[0].Names[0]]
+		ds, ok0 := h.Body.List[0].(*ast.DeclStmt)
+		rs, ok1 := h.Body.List[1].(*ast.RangeStmt)
+		ret, ok2 := h.Body.List[2].(*ast.ReturnStmt)
+		if !ok0 || !ok1 || !ok2 || len(ret.Results) != 1 || len(rs.Body.List) != 1 {
+			return Event{}, false
+		}
+		gd, ok := ds.Decl.(*ast.GenDecl)
+		if !ok || gd.Tok != token.VAR || len(gd.Specs) != 1 {
+			return Event{}, false
+		}
+		vs := gd.Specs[0].(*ast.ValueSpec)
+		if len(vs.Names) != 1 || len(vs.Values) != 0 {
+			return Event{}, false
+		}
+		outObj := c.Info.Defs[vs.Names[0]]
+		if rid, ok := ret.Results[0].(*ast.Ident); !ok || c.ObjOf(rid) != outObj {
+			return Event{}, false
+		}
+		if xid, ok := rs.X.(*ast.Ident); !ok || c.ObjOf(xid) != param {
+			return Event{}, false
+		}
+		if kid, ok := rs.Key.(*ast.Ident); rs.Key != nil && (!ok || kid.Name != "_") {
+			return Event{}, false
+		}
+		vid, ok := rs.Value.(*ast.Ident)
+		if !ok {
+			return Event{}, false
+		}
+		as, ok := rs.Body.List[0].(*ast.AssignStmt)
+		if !ok || len(as.Lhs) != 1 || len(as.Rhs) != 1 || as.Tok != token.ASSIGN {
+			return Event{}, false
+		}
+		if lid, ok := as.Lhs[0].(*ast.Ident); !ok || c.ObjOf(lid) != outObj {
+			return Event{}, false
+		}
+		ap, ok := as.Rhs[0].(*ast.CallExpr)
+		if !ok || len(ap.Args) != 2 || ap.Ellipsis.IsValid() {
+			return Event{}, false
+		}
+		if id, ok := ap.Fun.(*ast.Ident); !ok || id.Name != "append" {
+			return Event{}, false
+		}
+		if bid, ok := ap.Args[0].(*ast.Ident); !ok || c.ObjOf(bid) != outObj {
+			return Event{}, false
+		}
+		ev, arg, okc := x.conversion(ap.Args[1])
+		if !okc {
+			return Event{}, false
+		}
+		if aid, ok := arg.(*ast.Ident); !ok || c.ObjOf(aid) != c.Info.Defs[vid] {
+			return Event{}, false
+		}
+		ev.Expr = ev.Kind
+		ev.Kind = KList
+		return ev, true
+	}
+	return Event{}, false
 }
